@@ -141,6 +141,18 @@ func Refs(v any, at string, out map[string]string) {
 				}
 				continue
 			}
+			// the values of a discriminator mapping are references too (OAS 3.1 Discriminator Object)
+			if k == "discriminator" {
+				if dm, ok := c.(map[string]any); ok {
+					if mp, ok := dm["mapping"].(map[string]any); ok {
+						for mk, mv := range mp {
+							if s, ok := mv.(string); ok && strings.HasPrefix(s, "#") {
+								out[at+"/discriminator/mapping/"+PtrEscape(mk)] = s
+							}
+						}
+					}
+				}
+			}
 			Refs(c, at+"/"+PtrEscape(k), out)
 		}
 	case []any:
